@@ -13,11 +13,12 @@ Settle(i2, n2, k2) ==   \* quiescent values of the watcher / loop variables for 
     LET p  == {i \in Inst : Passing(i2, n2, i)}
         c  == [ok |-> {i \in p : i2[i] # "bad"}, bad |-> {i \in p : i2[i] = "bad"}] IN
     /\ wsPc' = "blocked" /\ wsLast' = hidx' /\ wsSnap' = [i |-> i2, n |-> n2] /\ wsTodo' = {} /\ wsCfg' = c
+    /\ wsDegraded' = FALSE /\ svcDegraded' = FALSE /\ svcSnap' = [i |-> i2, n |-> n2]
     /\ wkPc' = "blocked" /\ wkLast' = kidx' /\ wkVal' = k2
     /\ bePc' = "select" /\ svccfg' = c /\ mancfg' = k2 /\ svcIdx' = hidx'
     /\ IF Valid(c, k2)
-       THEN active' = TableOf(c, k2) /\ lastTable' = <<c, k2>> /\ activeIdx' = hidx'
-       ELSE UNCHANGED <<active, lastTable, activeIdx>>
+       THEN active' = TableOf(c, k2) /\ lastTable' = <<CfgText(c), k2>> /\ activeIdx' = hidx' /\ activeSnap' = [i |-> i2, n |-> n2]
+       ELSE UNCHANGED <<active, lastTable, activeIdx, activeSnap>>
 
 GenStep(kind, id, st) ==
     /\ Len(ghist) < MaxChanges
@@ -35,5 +36,5 @@ GenNext == \/ \E i \in Inst, s \in InstState : GenStep("inst", i, s)
 GenSpec == GenInit /\ [][GenNext]_<<vars, ghist>>
 
 \* every generated state is a quiescent state of the design satisfying its invariants
-GenConsistent == (ghist # <<>>) => (Quiescent /\ QuiescentCorrect /\ LastGood /\ Isolation)
+GenConsistent == (ghist # <<>>) => (Quiescent /\ QuiescentCorrect /\ LastGood /\ Isolation /\ RoutedWerePassing)
 =============================================================================
